@@ -1,4 +1,4 @@
 ------------------------------ MODULE MC_Crash ------------------------------
 EXTENDS UpdogCrash
-ConfigsDef == {[total |-> t, batch |-> 2, big |-> b] : t \in 0..5, b \in BOOLEAN}
+ConfigsDef == {[total |-> t, batch |-> 2, big |-> b, occupied |-> o] : t \in 0..5, b \in BOOLEAN, o \in BOOLEAN}
 =============================================================================
